@@ -16,10 +16,41 @@ static _Bool g_bad_consumed;     /* some byte outside the set the current routin
 static unsigned char g_log[8];   /* first 8 delivered bytes (as chars; end is logged as 0) */
 static unsigned char g_allowed_class; /* which bytes the routine under test may consume: 0 any, 1 JSON whitespace, 2 number chars, 3 identifier chars */
 
+/* Number bytes (C10 "lenient number spellings", C16 "at most one further byte when it is a number"), per configuration.
+ *   IS_NUM(c)          bytes of the default number alphabet: digits, signs, '.', exponent marker.
+ *   NUM_MAY_CONSUME(c) what a number scanner may consume.  Default: IS_NUM.  With ARDUINOJSON_ENABLE_NAN / _INFINITY the
+ *                      dialect gains the spellings NaN / Infinity (C10: "NaN and Infinity only when the corresponding option
+ *                      is enabled"), which are made of ASCII letters: letters may then be consumed too, never anything else
+ *                      (no structural byte, quote, whitespace, NUL, byte >= 0x80).  Whether the letters consumed spell one
+ *                      of the option's words is parseNumber's verdict (unit pnloop, obligations option_*).
+ *   NUM_MUST_CONSUME(c) where a number scanner must NOT stop: the default alphabet plus the letters of the spellings the
+ *                      enabled option adds ("NaN", "nan"; "Infinity", "infinity", "inf"), so that each of them reaches
+ *                      parseNumber in one piece.
+ * configs.json passes -DCFG_<config>=1: nan = ENABLE_NAN, inf = ENABLE_INFINITY. */
+#define IS_NUM(c) (((c) >= '0' && (c) <= '9') || (c) == '+' || (c) == '-' || (c) == '.' || (c) == 'e' || (c) == 'E')
+#define IS_ASCII_LETTER(c) (((c) >= 'A' && (c) <= 'Z') || ((c) >= 'a' && (c) <= 'z'))
+#if defined(CFG_nan) || defined(CFG_inf)
+#define NUM_OPTION_WORDS 1
+#ifdef CANARY_NUM_LETTERS /* canary of the nan / inf obligations: the letter 'a' is declared not consumable */
+#define NUM_MAY_CONSUME(c) (IS_NUM(c) || (IS_ASCII_LETTER(c) && (c) != 'a'))
+#else
+#define NUM_MAY_CONSUME(c) (IS_NUM(c) || IS_ASCII_LETTER(c))
+#endif
+#ifdef CFG_nan
+#define NUM_MUST_CONSUME(c) (IS_NUM(c) || (c) == 'N' || (c) == 'a' || (c) == 'n')
+#else
+#define NUM_MUST_CONSUME(c) (IS_NUM(c) || (c) == 'I' || (c) == 'i' || (c) == 'n' || (c) == 'f' || (c) == 't' || (c) == 'y')
+#endif
+#else
+#define NUM_OPTION_WORDS 0
+#define NUM_MAY_CONSUME(c) IS_NUM(c)
+#define NUM_MUST_CONSUME(c) IS_NUM(c)
+#endif
+
 static _Bool ghost_allowed(int c) {
   if (g_allowed_class == 0) return 1;
   if (g_allowed_class == 1) return c == ' ' || c == '\t' || c == '\r' || c == '\n';
-  if (g_allowed_class == 2) return (c >= '0' && c <= '9') || c == '+' || c == '-' || c == '.' || c == 'e' || c == 'E';
+  if (g_allowed_class == 2) return NUM_MAY_CONSUME(c);
   return (c >= '0' && c <= '9') || (c >= 'A' && c <= 'Z') || (c >= '_' && c <= 'z');
 }
 
@@ -31,8 +62,72 @@ static _Bool ghost_allowed(int c) {
 /* ghost consistency: latch holds the last delivered byte; a delivered 0 means the end flag is set */
 #define GHOST_INV(d) (LATCH_IS_LAST(d) && (!g_have_last || g_last != 0 || g_ended))
 #define IS_WS(c) ((c) == ' ' || (c) == '\t' || (c) == '\r' || (c) == '\n')
-#define IS_NUM(c) (((c) >= '0' && (c) <= '9') || (c) == '+' || (c) == '-' || (c) == '.' || (c) == 'e' || (c) == 'E')
 #define IS_IDENT(c) (((c) >= '0' && (c) <= '9') || ((c) >= 'A' && (c) <= 'Z') || ((c) >= '_' && (c) <= 'z'))
+
+/* ---- comments (ARDUINOJSON_ENABLE_COMMENTS=1, config cmt): ghost automaton over the CONSUMED bytes -----------------------
+ * C10 admits comments "only when the corresponding option is enabled": between tokens, `/` `*` ... `*` `/` ending at the FIRST
+ * star-slash, and `/` `/` ... ending at the newline.  The automaton is written from that grammar, not from the code:
+ *   BETWEEN     outside comments: whitespace stays, '/' opens (SLASH), any other byte is a token byte: it must NOT be consumed
+ *   SLASH       one '/' consumed: '*' -> BLOCK, '/' -> LINE, any other byte must not be consumed
+ *   BLOCK       inside a block comment, the last byte is not a star that could close it ('*' -> BLOCK_STAR)
+ *   BLOCK_STAR  inside a block comment behind a star: '/' closes (BETWEEN), '*' stays, anything else -> BLOCK
+ *               (the star of the opening slash-star does not count: slash-star-slash is not closed)
+ *   LINE        inside a line comment: the newline closes (BETWEEN)
+ *   BAD         a byte was consumed that the grammar does not allow to consume (absorbing)
+ * A byte is consumed when the next read() happens or when the latch is empty at the end; g_cm is the state behind all bytes
+ * delivered BEFORE the last one (g_last), CM_EFF(d) the state behind every consumed byte (g_last counts once the latch has
+ * dropped it).  The loop contracts of jsonscan_cmt.loops.json carry CM_EFF. */
+enum { CM_BETWEEN = 0, CM_SLASH = 1, CM_BLOCK = 2, CM_BLOCK_STAR = 3, CM_LINE = 4, CM_BAD = 5 };
+static unsigned char g_cm;   /* automaton state */
+static unsigned g_cm_done;   /* comments completed so far */
+static _Bool g_cm_run;       /* BLOCK_STAR was reached from BLOCK_STAR: a run of at least two stars */
+static _Bool g_cm_2star;     /* a block comment was closed by the slash behind a run of at least two stars */
+#define CM_STEP(st, b) ((unsigned char)( \
+    (st) == CM_BETWEEN ? (((b) == ' ' || (b) == '\t' || (b) == '\r' || (b) == '\n') ? CM_BETWEEN : (b) == '/' ? CM_SLASH : CM_BAD) \
+  : (st) == CM_SLASH ? ((b) == '*' ? CM_BLOCK : (b) == '/' ? CM_LINE : CM_BAD) \
+  : (st) == CM_BLOCK ? ((b) == '*' ? CM_BLOCK_STAR : CM_BLOCK) \
+  : (st) == CM_BLOCK_STAR ? ((b) == '/' ? CM_BETWEEN : (b) == '*' ? CM_BLOCK_STAR : CM_BLOCK) \
+  : (st) == CM_LINE ? ((b) == '\n' ? CM_BETWEEN : CM_LINE) \
+  : CM_BAD))
+#define CM_EFF(d) (((d)->latch_.loaded_ || !g_have_last) ? g_cm : CM_STEP(g_cm, g_last))
+#define CM_GHOST_ASSIGNS g_cm, g_cm_done, g_cm_run, g_cm_2star
+static void cm_consume(int b) {
+  if (g_cm == CM_BLOCK_STAR && b == '/') { g_cm_done++; if (g_cm_run) g_cm_2star = 1; }
+  if (g_cm == CM_LINE && b == '\n') g_cm_done++;
+  g_cm_run = g_cm == CM_BLOCK_STAR && b == '*';
+  g_cm = CM_STEP(g_cm, b);
+}
+
+/* ---- quoted strings on the skip path (C11: a value the filter does not admit is skipped, consuming exactly the value;
+ * C10/C16: the string ends at the FIRST unescaped quote of the kind that opened it) ----------------------------------------
+ * Ghost automaton over the consumed bytes, written from the string grammar of RFC 8259 section 7 (plus the single quote):
+ *   OPEN  nothing consumed yet: the opening quote (g_sq_q) -> IN
+ *   IN    inside the string: the opening kind of quote closes (DONE), a backslash escapes the NEXT byte (ESC), others stay
+ *   ESC   behind a backslash: whatever comes is part of the string, also a quote or a second backslash (-> IN); so an
+ *         escaped backslash does not escape the quote behind it
+ *   DONE  closed; consuming anything more is BAD (absorbing)
+ * Same one-byte lag as the comment automaton: g_sq is the state behind the bytes delivered before g_last. Only fed while
+ * g_sq_on (set by the harness of skipQuotedString). */
+enum { SQ_OPEN = 0, SQ_IN = 1, SQ_ESC = 2, SQ_DONE = 3, SQ_BAD = 4 };
+static _Bool g_sq_on;
+static unsigned char g_sq;
+static int g_sq_q;             /* the quote that opened the string */
+static _Bool g_sq_escbs;       /* the byte consumed last was an escaped backslash */
+static _Bool g_sq_end_escbs;   /* the string was closed right behind an escaped backslash ("...\\\\" in C spelling: the text ends in two backslashes) */
+static _Bool g_sq_escq;        /* an escaped quote of the opening kind was consumed inside the string */
+#define SQ_STEP(st, b) ((unsigned char)( \
+    (st) == SQ_OPEN ? ((b) == g_sq_q ? SQ_IN : SQ_BAD) \
+  : (st) == SQ_IN ? ((b) == g_sq_q ? SQ_DONE : (b) == '\\' ? SQ_ESC : SQ_IN) \
+  : (st) == SQ_ESC ? SQ_IN \
+  : SQ_BAD))
+#define SQ_EFF(d) (((d)->latch_.loaded_ || !g_have_last) ? g_sq : SQ_STEP(g_sq, g_last))
+#define SQ_GHOST_ASSIGNS g_sq, g_sq_escbs, g_sq_end_escbs, g_sq_escq
+static void sq_consume(int b) {
+  if (g_sq == SQ_IN && b == g_sq_q && g_sq_escbs) g_sq_end_escbs = 1;
+  if (g_sq == SQ_ESC && b == g_sq_q) g_sq_escq = 1;
+  g_sq_escbs = g_sq == SQ_ESC && b == '\\';
+  g_sq = SQ_STEP(g_sq, b);
+}
 
 enum { Ok = 0, EmptyInput = 1, IncompleteInput = 2, InvalidInput = 3, NoMemory = 4, TooDeep = 5 };
 #endif
